@@ -14,13 +14,16 @@ git -C $WT checkout -q -- .
 mkdir -p /tmp/w
 if [ ! -d $CP ]; then cp -r /verif $CP; fi
 # sync sources (keep the copy's build caches)
-rsync -a --delete --exclude .cache --exclude 'lean/.lake' --exclude .git --exclude replay --exclude evidence /verif/ $CP/
+# the COMMITTED state of /verif is what gets tested (work in progress in /verif cannot leak into a result)
+EXP=/tmp/w/seedexport; rm -rf $EXP; mkdir -p $EXP; git -C /verif archive HEAD | tar -x -C $EXP
+rsync -a --delete --exclude .cache --exclude 'lean/.lake' --exclude 'lean/Hs/Gen' --exclude .git --exclude replay --exclude evidence $EXP/ $CP/
+rm -rf $EXP
 sed -i "s|path = \"/repo\"|path = \"$WT\"|" $CP/harness/Cargo.toml
 find $CP/harness/src -name '*.rs' -exec touch {} +
 if ! git -C $WT apply --check "$PATCH" 2>/dev/null; then echo "PATCH-DOES-NOT-APPLY"; exit 2; fi
 git -C $WT apply "$PATCH"
 for c in $CHECKS; do
   out=$(cd $CP && VERIF_REPO=$WT ./check $c --tier quick 2>&1 | grep -E 'VIOLATION|KNOWN-FINDING' | head -5)
-  echo "== $c: ${out:-no violation reported}"
+  echo "== $c: $(echo "${out:-no violation reported}" | cut -c1-260 | tr '\n' ';')"
 done
 git -C $WT checkout -q -- .
